@@ -210,6 +210,25 @@ def normalise(tree, modname):
     return applied
 
 
+class _IfNormal(ast.NodeTransformer):
+    """`if not c: A else: B`  ->  `if c: B else: A`  (only for a plain else, not an elif chain): one spelling per two-way
+    branch, so that rules written against the pinned source also read the mirrored spelling"""
+
+    def visit_If(self, node):
+        self.generic_visit(node)
+        t = node.test
+        if isinstance(t, ast.UnaryOp) and isinstance(t.op, ast.Not) and node.orelse:
+            node.test = t.operand
+            node.body, node.orelse = node.orelse, node.body
+        return node
+
+
+def normalise_shape(tree):
+    if os.environ.get("PDSA_NO_ALPHA"):
+        return tree
+    return _IfNormal().visit(tree)
+
+
 def build_reference(repo_pkg_dir, pkg="pydrobert.speech"):
     table = {}
     for fnm in sorted(os.listdir(repo_pkg_dir)):
@@ -218,7 +237,7 @@ def build_reference(repo_pkg_dir, pkg="pydrobert.speech"):
         base = fnm[:-3]
         modname = pkg if base == "__init__" else pkg + "." + base
         with open(os.path.join(repo_pkg_dir, fnm)) as fh:
-            tree = ast.parse(fh.read())
+            tree = normalise_shape(ast.parse(fh.read()))
         for q, fn in functions_of(tree, modname):
             s = signatures(fn)
             if s:
